@@ -15,6 +15,9 @@ Inductive sval : Type :=
 | SVInt (n : N)
 | SVBytes (b : bytes).
 
+Definition sval_value (v : sval) : value :=
+  match v with SVInt n => VI n | SVBytes b => VB b end.
+
 Section Spec.
 Variable sigma : string -> string.
 Variable msel : list (string * bytes).
@@ -99,6 +102,13 @@ Fixpoint blocks_after (pro : list comp) (ib : list N) (bb : list bytes) : option
   | _ :: _ => None
   end.
 
+(* integer immediates the assembler accepted are below 2^64 (the machine checks it again) *)
+Definition imm_fits (p : pinstr) : Prop :=
+  match p_op p, p_imms p with
+  | (O_int | O_pushint), [IInt n] => (n < 18446744073709551616)%N
+  | _, _ => True
+  end.
+
 Definition is_const_instr (i : instr) : bool :=
   match const_kind (i_op i) with CKNone => false | _ => true end.
 
@@ -114,7 +124,7 @@ Definition site_ok (ib : list N) (bb : list bytes) (c c' : comp) : Prop :=
   match c with
   | COp i =>
       if is_const_instr i then
-        exists i' p', c' = COp i' /\ parsed_of i' = Some p' /\
+        exists i' p', c' = COp i' /\ parsed_of i' = Some p' /\ imm_fits p' /\
                       forall v, denote i = Some v -> load_value ib bb p' = Some v
       else c' = c
   | _ => c' = c
